@@ -53,7 +53,11 @@ type c12Cfg struct {
 	Templates bool   `json:"templates,omitempty"`
 }
 type c12Op struct {
-	K string `json:"k"` // set | wh | w | f | panic
+	// set | wh | w | f | panic (A = kind of the panic value) | read
+	// body-producing ops other than Write: ws (io.WriteString) | copy (io.Copy from a plain io.Reader:
+	// the io.ReaderFrom entry point of the writers that offer one) | copywt (io.Copy from a source that is
+	// an io.WriterTo) | rf (w.(io.ReaderFrom).ReadFrom if offered, else io.Copy) | copyn (io.CopyN, N bytes)
+	K string `json:"k"`
 	A string `json:"a,omitempty"`
 	B string `json:"b,omitempty"`
 	N int    `json:"n,omitempty"`
@@ -109,12 +113,26 @@ func (p c12Probe) ServeHTTP(w http.ResponseWriter, r *http.Request) (int, error)
 			w.WriteHeader(o.N)
 		case "w":
 			w.Write([]byte(o.D))
+		case "ws":
+			io.WriteString(w, o.D)
+		case "copy":
+			io.Copy(w, c12PlainReader{strings.NewReader(o.D)})
+		case "copywt":
+			io.Copy(w, strings.NewReader(o.D))
+		case "rf":
+			if rf, ok := w.(io.ReaderFrom); ok {
+				rf.ReadFrom(c12PlainReader{strings.NewReader(o.D)})
+			} else {
+				io.Copy(w, c12PlainReader{strings.NewReader(o.D)})
+			}
+		case "copyn":
+			io.CopyN(w, c12PlainReader{strings.NewReader(o.D)}, int64(o.N))
 		case "f":
 			if f, ok := w.(http.Flusher); ok {
 				f.Flush()
 			}
 		case "panic":
-			panic("c12 scripted panic")
+			c12Panic(o.A, len(sc.script))
 		case "read":
 			if r.Body != nil {
 				if _, err := io.ReadAll(r.Body); err == httpserver.ErrMaxBytesExceeded {
@@ -133,6 +151,86 @@ func (p c12Probe) ServeHTTP(w http.ResponseWriter, r *http.Request) (int, error)
 		return sc.ret, errors.New("c12err")
 	}
 	return sc.ret, nil
+}
+
+// c12PlainReader hides every method of the source but Read (an upstream body, a pipe, a LimitedReader)
+type c12PlainReader struct{ r io.Reader }
+
+func (p c12PlainReader) Read(b []byte) (int, error) { return p.r.Read(b) }
+
+type c12PanicVal struct{ code int }
+
+var c12PanicKinds = []string{"string", "error", "runtime", "abort", "nilderef", "custom", "nil"}
+
+// c12Panic panics with a value of the given kind
+func c12Panic(kind string, n int) {
+	switch kind {
+	case "error":
+		panic(errors.New("c12 scripted panic"))
+	case "runtime":
+		var a []int
+		_ = a[n] // index out of range
+	case "abort":
+		panic(http.ErrAbortHandler)
+	case "nilderef":
+		var p *c12Script
+		_ = p.ret
+	case "custom":
+		panic(c12PanicVal{n})
+	case "nil":
+		var v interface{}
+		panic(v)
+	}
+	panic("c12 scripted panic")
+}
+
+func c12PanicTerm(kind string) string {
+	switch kind {
+	case "error":
+		return "PError"
+	case "runtime":
+		return "PRuntime"
+	case "abort":
+		return "PAbort"
+	case "nilderef":
+		return "PNilDeref"
+	case "custom":
+		return "PCustom"
+	case "nil":
+		return "PNil"
+	}
+	return "PString"
+}
+
+// c12Norm maps the handler's ops to the ops of the model: io.WriteString is a Write; io.Copy from
+// an io.WriterTo source is one Write (none when the source is empty); io.Copy / io.CopyN from a plain
+// reader and a direct ReadFrom are the model's ORf (the io.ReaderFrom entry point) with the bytes copied
+func c12Norm(ops []c12Op) []c12Op {
+	var out []c12Op
+	for _, o := range ops {
+		switch o.K {
+		case "ws":
+			out = append(out, c12Op{K: "w", D: o.D})
+		case "copywt":
+			if o.D != "" {
+				out = append(out, c12Op{K: "w", D: o.D})
+			}
+		case "copy", "rf":
+			out = append(out, c12Op{K: "rf", D: o.D})
+		case "copyn":
+			d := o.D
+			if o.N < len(d) {
+				d = d[:o.N]
+			}
+			if o.N < 0 {
+				d = ""
+			}
+			out = append(out, c12Op{K: "rf", D: d})
+		default:
+			out = append(out, o)
+		}
+	}
+	return out
 }
 
 var c12Registered bool
@@ -496,7 +594,7 @@ func c12Texts(codes ...int) string {
 
 func c12OpsTerm(ops []c12Op) string {
 	var it []string
-	for _, o := range ops {
+	for _, o := range c12Norm(ops) {
 		switch o.K {
 		case "set":
 			it = append(it, cApp("OSet", cStr(http.CanonicalHeaderKey(o.A)), cStr(o.B)))
@@ -507,7 +605,9 @@ func c12OpsTerm(ops []c12Op) string {
 		case "f":
 			it = append(it, "OFl")
 		case "panic":
-			it = append(it, "OPanic")
+			it = append(it, cApp("OPanic", c12PanicTerm(o.A)))
+		case "rf":
+			it = append(it, cApp("ORf", cStr(o.D)))
 		}
 	}
 	return cList(it)
@@ -516,11 +616,11 @@ func c12OpsTerm(ops []c12Op) string {
 // c12Rd is the place of the "read" op among the modelled ops ("None" when the body is never read)
 func c12Rd(ops []c12Op) string {
 	n := 0
-	for _, o := range ops {
+	for _, o := range c12Norm(ops) {
 		switch o.K {
 		case "read":
 			return "(Some " + cNat(n) + ")"
-		case "set", "wh", "w", "f", "panic":
+		case "set", "wh", "w", "f", "panic", "rf":
 			n++
 		}
 	}
@@ -562,6 +662,7 @@ type c12Shape struct {
 	flushBuf   bool // Flush while templates is buffering
 	earlyFlush bool // Flush before the header was committed
 	multiWH    bool
+	emptyCopy  bool // templates' ResponseBuffer is handed an empty source before the header is committed
 }
 
 func c12ShapeOf(in *c12In) c12Shape {
@@ -573,10 +674,20 @@ func c12ShapeOf(in *c12In) c12Shape {
 	ext := filepath.Ext(ep)
 	ct := ""
 	committed := false // inner's view: WriteHeader or Write happened
-	for _, o := range in.Script {
+	for _, o := range c12Norm(in.Script) {
 		if o.K == "panic" {
 			s.panics = true
 			break
+		}
+		if o.K == "rf" {
+			if o.D != "" {
+				o.K = "w"
+			} else if in.Cfg.Templates && !committed {
+				s.emptyCopy = true
+				continue
+			} else {
+				continue
+			}
 		}
 		switch o.K {
 		case "set":
@@ -628,6 +739,8 @@ func c12Sig(in0 *c12In) string {
 		return "limits-413"
 	}
 	switch {
+	case s.emptyCopy:
+		return "templates:empty-copy-before-header"
 	case s.panics && s.touched:
 		return "panic-after-write"
 	case s.panics:
@@ -690,14 +803,15 @@ func c12Observe(r1 c12Resp, sup int) c12Observed {
 	_, xdel := r1.Header["X-Del"]
 	mime := r1.Header.Get("Content-Type") == "text/x-c12"
 	loc := r1.Header.Get("Location") == "/there"
-	term := cApp("Build_obs", cZ(int64(r1.Status)), cBool(garbled), cBytes(view), cNat(sup), xprobe, cBool(xcfg), cBool(xdel), cBool(mime), cBool(loc))
+	_, etag := r1.Header["Etag"]
+	term := cApp("Build_obs", cZ(int64(r1.Status)), cBool(garbled), cBytes(view), cNat(sup), xprobe, cBool(xcfg), cBool(xdel), cBool(mime), cBool(loc), cBool(etag))
 	bh := r1.Body
 	if len(bh) > 80 {
 		bh = bh[:80]
 	}
 	o := map[string]interface{}{"status": r1.Status, "ce": r1.Header["Content-Encoding"], "ct": r1.Header.Get("Content-Type"),
 		"view": fmt.Sprintf("%q", view), "wire_head": fmt.Sprintf("%q", bh), "garbled": garbled, "superfluous_writeheader": sup,
-		"x_c12": r1.Header["X-C12"], "x_cfg": xcfg, "x_del": xdel, "location": r1.Header.Get("Location"), "err": r1.Err}
+		"x_c12": r1.Header["X-C12"], "etag": r1.Header["Etag"], "content_length": r1.Header["Content-Length"], "wire_len": len(r1.Body), "x_cfg": xcfg, "x_del": xdel, "location": r1.Header.Get("Location"), "err": r1.Err}
 	return c12Observed{term: term, respOK: respOK, sup: sup, obs: o}
 }
 
@@ -933,7 +1047,71 @@ func c12Run(in0 interface{}) Result {
 var c12ErrModes = []string{"", "plain", "visible", "pages", "generic", "missing", "empty"}
 var c12Paths = []string{"/x.html", "/x.txt", "/x", "/st/x.html", "/rw/a.txt", "/dir/y.html", "/st"}
 var c12ErrModesAll = []string{"", "plain", "visible", "pages", "generic", "missing", "empty", "genmissing", "missgen"}
-var c12Bodies = []string{"hello", "<html><body>c12 body</body></html>", "a", "line1\nline2\n", "plain text with {braces} and }} only", "{{"}
+var c12Bodies = []string{"hello", "<html><body>c12 body</body></html>", "a", "line1\nline2\n", "plain text with {braces} and }} only", "{{",
+	// templates that parse and fail at execution
+	"<p>{{.Include \"nothere.html\"}}</p>", "before {{.NoSuchField}} after", "{{index .Req.Header.Nope 3}}", "json {\"a\": {{.Cookie}} }"}
+
+// c12WriteKinds are the ways a handler produces body bytes
+var c12WriteKinds = []string{"w", "ws", "copy", "copywt", "rf", "copyn"}
+
+func c12BodyOp(r *Rand, kind, d string) c12Op {
+	switch kind {
+	case "copyn":
+		// the source may hold more than is copied
+		return c12Op{K: "copyn", D: d + r.Pick([]string{"", "", "TAIL"}), N: len(d)}
+	case "copywt":
+		if d == "" {
+			return c12Op{K: "w", D: d}
+		}
+	}
+	return c12Op{K: kind, D: d}
+}
+
+// c12Vary rewrites a script: every Write becomes one of the body-producing ops, every panic gets a
+// value kind (mode 0: leave Writes / string panics; 1: one kind for the whole script; 2: a kind per op)
+func c12Vary(r *Rand, ops []c12Op, mode int) []c12Op {
+	out := append([]c12Op{}, ops...)
+	kind := r.Pick(c12WriteKinds[1:])
+	for i, o := range out {
+		switch o.K {
+		case "w":
+			if mode == 0 || (o.D == "" && !r.Chance(10)) {
+				continue // an empty copy is its own class (c12EmptyCopyCases and a small share here)
+			}
+			if mode == 2 {
+				kind = r.Pick(c12WriteKinds)
+			}
+			out[i] = c12BodyOp(r, kind, o.D)
+		case "panic":
+			if o.A == "" && mode != 0 {
+				out[i].A = r.Pick(c12PanicKinds)
+			}
+		}
+	}
+	return out
+}
+
+// c12FileLike is what the static file server does: the complete header of the representation
+// (Content-Length, validators), WriteHeader, then the body copied from a plain reader
+func c12FileLike(ct, body string, copyKind string) []c12Op {
+	ops := []c12Op{{K: "set", A: "X-C12", B: "file"}}
+	if ct != "" {
+		ops = append(ops, c12Op{K: "set", A: "Content-Type", B: ct})
+	}
+	ops = append(ops, c12Op{K: "set", A: "Accept-Ranges", B: "bytes"}, c12Op{K: "set", A: "Content-Length", B: fmt.Sprint(len(body))},
+		c12Op{K: "set", A: "Etag", B: "\"c12etag\""}, c12Op{K: "set", A: "Last-Modified", B: "Mon, 02 Jan 2006 15:04:05 GMT"},
+		c12Op{K: "wh", N: 200}, c12Op{K: copyKind, D: body, N: len(body)})
+	return ops
+}
+
+func c12HasCL(ops []c12Op) bool {
+	for _, o := range ops {
+		if o.K == "set" && http.CanonicalHeaderKey(o.A) == "Content-Length" {
+			return true
+		}
+	}
+	return false
+}
 
 func c12Chunks(r *Rand, b string) []c12Op {
 	var ops []c12Op
@@ -990,7 +1168,64 @@ func c12CoreScripts(r *Rand) []c12In {
 		// handlers that break the contract
 		{Ret: 404, Script: []c12Op{html, w("wrote and failed")}},
 		{Ret: 0, Script: []c12Op{html, wh(200), wh(404), w("twice")}},
+		// bodies produced without Write: io.Copy / ReadFrom / io.CopyN / io.WriteString, with the implicit header
+		{Ret: 0, Script: []c12Op{xp, {K: "set", A: "Content-Type", B: "text/plain; charset=utf-8"}, {K: "set", A: "Etag", B: "\"v\""}, {K: "copy", D: "copied, not a template: {{"}}},
+		{Ret: 0, Script: []c12Op{xp, html, {K: "rf", D: "<p>read from</p>"}}},
+		{Ret: 0, Script: []c12Op{xp, {K: "copyn", D: "0123456789", N: 4}, {K: "ws", D: " then a string"}, {K: "copywt", D: " then a WriterTo"}}},
+		{Ret: 0, Err: true, Script: []c12Op{xp, html, {K: "copy", D: "partial copy"}}},
+		{Ret: 302, Script: []c12Op{xp, {K: "set", A: "Location", B: "/there/"}, wh(302), {K: "copy", D: "moved"}}},
+		{Script: []c12Op{xp, {K: "copy", D: "copied before the panic"}, {K: "panic", A: "abort"}}},
+		// what the static file server does (complete header, Content-Length, validators, copy), with a page,
+		// a template that fails at execution, one that does not parse, and a non-template
+		{Ret: 0, Script: c12FileLike("text/html; charset=utf-8", "<html><body>a page</body></html>", "copyn")},
+		{Ret: 200, Script: c12FileLike("text/html; charset=utf-8", "<html>{{.Include \"nothere.html\"}} and a long tail so that the source is longer than any error text: 0123456789 0123456789 0123456789</html>", "copyn")},
+		{Ret: 0, Script: c12FileLike("text/html; charset=utf-8", "{{.NoSuchField}}", "copy")},
+		{Ret: 0, Script: c12FileLike("text/html; charset=utf-8", "<p>{{</p>", "w")},
+		{Ret: 0, Script: c12FileLike("application/json", "{\"a\": \"{{\"}", "rf")},
+		// panic values
+		{Script: []c12Op{{K: "panic", A: "abort"}}}, {Script: []c12Op{xp, {K: "panic", A: "nil"}}},
 	}
+}
+
+// c12PanicValueCases: every kind of panic value x every subset of the directives that recover
+// (log, errors) or sit between them and the handler (header, templates), before and after writing
+func c12PanicValueCases(r *Rand) []*c12In {
+	var out []*c12In
+	for _, kind := range c12PanicKinds {
+		for mask := 0; mask < 16; mask++ {
+			c := c12Cfg{Log: mask&1 != 0, Header: mask&4 != 0, Templates: mask&8 != 0, ReqID: r.Bool(), Mime: r.Bool()}
+			if mask&2 != 0 {
+				c.Errors = r.Pick([]string{"plain", "visible", "pages", "generic"})
+			}
+			pre := []c12Op{}
+			if r.Bool() {
+				pre = append(pre, c12Op{K: "set", A: "X-C12", B: "v1"})
+			}
+			out = append(out, &c12In{Cfg: c, Path: r.Pick(c12Paths[:3]), AE: r.Bool(), Script: append(pre, c12Op{K: "panic", A: kind})})
+			if mask%4 == int(kind[0])%4 { // a sample after writing
+				sc := append(append([]c12Op{}, pre...), c12Op{K: r.Pick(c12WriteKinds), D: "sent", N: 4}, c12Op{K: "f"}, c12Op{K: "panic", A: kind})
+				out = append(out, &c12In{Cfg: c, Path: "/x.txt", AE: r.Bool(), Script: sc})
+			}
+		}
+		c := c12RandomCfg(r)
+		c.Gzip = true
+		out = append(out, &c12In{Cfg: c, Path: "/x.html", AE: true, Script: []c12Op{{K: "panic", A: kind}}})
+	}
+	return out
+}
+
+// c12EmptyCopyCases: io.Copy / ReadFrom from an empty source (nothing is written) before the header,
+// with and without templates' ResponseBuffer (the only wrapper with a ReadFrom of its own)
+func c12EmptyCopyCases(r *Rand) []*c12In {
+	var out []*c12In
+	for _, t := range []bool{false, true} {
+		for _, k := range []string{"copy", "rf", "copyn"} {
+			c := c12Cfg{Templates: t, Log: r.Bool(), Header: r.Bool(), Gzip: r.Bool()}
+			out = append(out, &c12In{Cfg: c, Path: r.Pick(c12Paths[:3]), AE: r.Bool(), Ret: 404, Script: []c12Op{{K: k, D: ""}}},
+				&c12In{Cfg: c, Path: r.Pick(c12Paths[:3]), AE: r.Bool(), Script: []c12Op{{K: k, D: ""}, {K: "wh", N: 404}, {K: "w", D: "custom not found"}}})
+		}
+	}
+	return out
 }
 
 func c12RandomScript(r *Rand) c12In {
@@ -1105,12 +1340,15 @@ func c12WithBody(r *Rand, in *c12In) {
 	// request body, and a later read through the limit reader sees EOF (outside the model)
 	first := len(in.Script)
 	for i, o := range in.Script {
-		if o.K == "wh" || o.K == "w" || o.K == "f" {
+		if o.K != "set" && o.K != "panic" {
 			first = i
 			break
 		}
 	}
 	k := r.Intn(first + 1)
+	if c12HasCL(in.Script) {
+		k = 0 // a header that describes the representation is set after the request has been read
+	}
 	sc := append([]c12Op{}, in.Script[:k]...)
 	sc = append(sc, c12Op{K: "read"})
 	in.Script = append(sc, in.Script[k:]...)
@@ -1145,6 +1383,7 @@ func c12SeqCase(r *Rand) *c12In {
 		default:
 			q = c12RandomScript(r)
 		}
+		q.Script = c12Vary(r, q.Script, []int{0, 1, 2}[r.Intn(3)])
 		q.Path = r.Pick([]string{"/x.html", "/x.html", "/y.html", "/x.txt", "/x", "/rd", "/int/a.html", "/st/x.html"})
 		q.AE = r.Chance(75)
 		q.Conn = r.Intn(conns)
@@ -1176,6 +1415,7 @@ func c12Gen(r *Rand, tier string) []interface{} {
 		in.Cfg = c
 		in.Path = pickPath(c)
 		in.AE = r.Chance(60)
+		in.Script = c12Vary(r, in.Script, []int{0, 0, 1, 1, 2}[r.Intn(5)])
 		if r.Chance(12) && in.Path != "/rd" { // http.Redirect answers GET and POST differently
 			c12WithBody(r, &in)
 		}
@@ -1238,6 +1478,13 @@ func c12Gen(r *Rand, tier string) []interface{} {
 				out = append(out, &in)
 			}
 		}
+	}
+	// every kind of panic value; copies from an empty source
+	for _, in := range c12PanicValueCases(r) {
+		out = append(out, in)
+	}
+	for _, in := range c12EmptyCopyCases(r) {
+		out = append(out, in)
 	}
 	// limits: a body over / under the limit read before / after writing
 	for k := 0; k < 40; k++ {
